@@ -1,5 +1,6 @@
 import Driver.Util
 import OxiModel.Sched
+import OxiModel.Nested
 open OxiModel
 namespace Driver
 
@@ -12,8 +13,30 @@ def parseSchedEvent (tok : String) : Option SchedEvent :=
   | ["R"] => some .collectEnd
   | _ => none
 
+def parseNestEvent (tok : String) : Option Nest.NEv :=
+  match tok.splitOn ":" with
+  | ["Q", j, p, k, w] =>
+    let kind : Option Nest.Kind := if k == "c" then some .collector else if k == "f" then some .forker
+                                    else if k == "p" then some .pure else none
+    let parent : Option (Option Nat) := if p == "-" then some none else p.toNat?.map some
+    match j.toNat?, parent, kind, w.toNat? with
+    | some j, some p, some k, some w => some (.spawn j p k w)
+    | _, _, _, _ => none
+  | ["S", j, w] => (match j.toNat?, w.toNat? with | some j, some w => some (.start j w) | _, _ => none)
+  | ["F", j, w] => (match j.toNat?, w.toNat? with | some j, some w => some (.finish j w) | _, _ => none)
+  | _ => none
+
 def handleSched (args : List String) : Option String :=
   match args with
+  | ["nest_log", toks] => some <|
+    match (toks.splitOn ";").mapM parseNestEvent with
+    | none => "bad-args"
+    | some evs =>
+      match Nest.nestReplay evs with
+      | .error e => "err " ++ e
+      | .ok (js, _) =>
+        let open_ := (js.filter fun r => r.st ≠ .finished).length
+        s!"ok jobs={js.length} unfinished={open_}"
   | ["sched_log", inPool, toks] => some <|
     match (toks.splitOn ";").mapM parseSchedEvent with
     | none => "bad-args"
